@@ -64,6 +64,16 @@ THEOREMS = [
     "VK.C08_condorcet_cand_order",
     "VK.C08_domsets_cand_order",
     "VK.C08_condoborda_cand_order",
+    "VK.scoreFromRankings_rep",
+    "VK.scoreFromBallotScores_rep",
+    "VK.RepEq.removeCand",
+    "VK.topMRun_rep",
+    "VK.C08_plurality_rep",
+    "VK.C08_borda_rep",
+    "VK.C08_scorerule_rep",
+    "VK.C08_plurality_ballot_order",
+    "VK.C08_plurality_ballot_split",
+    "VK.C08_plurality_ballot_merge",
 ]
 RULE = ("cases = deterministic configuration of every ranking / scoring / pairwise rule (as in C10) on a random profile; "
         "five transformations of the input: rename the candidates by a random bijection into a second name pool (sort "
